@@ -798,8 +798,10 @@ fn dropped_names(steps: &[Step], model: &Model) -> Vec<String> {
     let mut out = vec![];
     for s in steps {
         if let Step::Stmt(Stmt::DropTable { name }) = s {
-            if !model.name_taken(name) && !out.contains(name) {
-                out.push(name.clone());
+            for name in name.split(", ").map(String::from) {
+                if !model.name_taken(&name) && !out.contains(&name) {
+                    out.push(name);
+                }
             }
         }
     }
